@@ -160,7 +160,18 @@ class Ctx:
                'distinct_nontrivial': len(self.nontrivial),
                'rule': self.rule,
                'samples': self.samples[:8]}
-        cov.update(self.cov)
+        typed = {'states': int, 'transitions': int, 'traces_validated_against_impl': int, 'obligations': int,
+                 'discharged': int, 'checker_cmd': str, 'trusted_base': list, 'programs': int,
+                 'disagreements_checked': int, 'explanation': str, 'exhaustive': bool}
+        for k, v in self.cov.items():
+            if k in ('evaluations', 'distinct_nontrivial', 'rule', 'samples'):
+                k = k + '_extra'
+            elif k in typed and not (isinstance(v, typed[k]) and not (typed[k] is int and isinstance(v, bool))):
+                k = k + '_table'     # keys with a schema-defined type keep that type
+            cov[k] = v
+        if not cov['samples'] and self.nontrivial:
+            # fall back to the identifiers of actual non-trivial cases of this run
+            cov['samples'] = [{'case': x} for x in sorted(self.nontrivial)[:3]]
         cov['known_findings_reobserved'] = sorted(self.known_seen)
         if self.inconclusive_reasons:
             cov['inconclusive'] = self.inconclusive_reasons
